@@ -1735,6 +1735,133 @@ def rule_shape_arg(ctx):
     return r
 
 
+def rule_lib_api(ctx):
+    r = RuleResult('C10.lib-api', 'every attribute chain rooted in numpy / scipy / math / operator / functools / itertools that the library mentions exists in the '
+                                  'installed version of that library (the namespaces of the dependencies are consulted like type stubs; algopy itself is not '
+                                  'imported): a name that was removed or never existed raises AttributeError on the path that reaches it')
+    import importlib
+    roots = ('numpy', 'scipy', 'math', 'operator', 'functools', 'itertools')
+    cache = {}
+
+    def resolves(d):
+        if d in cache:
+            return cache[d]
+        parts = d.split('.')
+        try:
+            obj = importlib.import_module(parts[0])
+        except Exception:
+            cache[d] = None
+            return None
+        ok = True
+        for i, p_ in enumerate(parts[1:], 1):
+            if hasattr(obj, p_):
+                obj = getattr(obj, p_)
+            else:
+                try:
+                    obj = importlib.import_module('.'.join(parts[:i + 1]))
+                except Exception:
+                    ok = False
+                    break
+        cache[d] = ok
+        return ok
+    m = ctx.model
+    seen = {}
+    for mi in m.modules.values():
+        parents = {}
+        for n in ast.walk(mi.tree):
+            for ch in ast.iter_child_nodes(n):
+                parents[id(ch)] = n
+        for n in ast.walk(mi.tree):
+            if isinstance(n, ast.Attribute) and not (isinstance(parents.get(id(n)), ast.Attribute) and parents[id(n)].value is n):
+                d = dotted_name(n)
+                if d and d.split('.')[0] in roots and isinstance(n.ctx, ast.Load):
+                    seen.setdefault(d, (mi, n))
+    for d, (mi, n) in sorted(seen.items()):
+        v = resolves(d)
+        if v is None:
+            r.unknown(mi.file, 'library %s is not importable in the checking environment' % d.split('.')[0])
+        elif v:
+            r.ok(construct=d)
+        else:
+            # a method of a library object reached through an attribute chain (numpy.float64(1).real ...) cannot be told apart from a missing name
+            head = d
+            while head and resolves(head) is False:
+                head = head.rpartition('.')[0]
+            r.bad(Finding('C10.lib-api', mi.name, d, '`%s` does not exist in the installed %s (`%s` is the longest prefix that does): AttributeError where it is reached'
+                          % (d, d.split('.')[0], head), mi.file, getattr(n, 'lineno', 0)))
+    r.floor = 100
+    return r
+
+
+def rule_int_index(ctx):
+    r = RuleResult('C13.int-index', 'index arithmetic stays in the integers: no true division `/` reaches a slice bound, a `range` bound or `slice(...)` '
+                                    'through the local definitions (Python 3 yields a float, NumPy rejects it - the operation raises for every input), '
+                                    'and a multi-dimensional index built as a *list* of slices is converted to a tuple (a list is fancy indexing)')
+    m = ctx.model
+    n_sinks = 0
+    for fi in m.all_functions():
+        if fi.generated:
+            continue
+        defs = {}
+        for st in walk_no_nested(fi.node):
+            if isinstance(st, ast.Assign):
+                for t in st.targets:
+                    for n in ast.walk(t):
+                        if isinstance(n, ast.Name) and isinstance(n.ctx, ast.Store):
+                            defs.setdefault(n.id, []).append(st.value)
+
+        def div_in(e, seen, depth=0):
+            if depth > 6:
+                return None
+            if isinstance(e, ast.Call) and (dotted_name(e.func) or '') in ('int', 'len', 'round', 'numpy.int64', 'numpy.intp', 'operator.index'):
+                return None
+            if isinstance(e, ast.BinOp) and isinstance(e.op, ast.Div):
+                return e
+            if isinstance(e, ast.Name) and e.id in defs and e.id not in seen:
+                seen.add(e.id)
+                for d_ in defs[e.id]:
+                    hit = div_in(d_, seen, depth + 1)
+                    if hit is not None:
+                        return hit
+                return None
+            for ch in ast.iter_child_nodes(e):
+                hit = div_in(ch, seen, depth)
+                if hit is not None:
+                    return hit
+            return None
+        sinks = []
+        for n in walk_no_nested(fi.node):
+            if isinstance(n, ast.Call) and isinstance(n.func, ast.Name) and n.func.id in ('slice', 'range'):
+                sinks += [(a, n) for a in n.args]
+            if isinstance(n, ast.Call) and (dotted_name(n.func) or '') in ('numpy.zeros', 'numpy.empty', 'numpy.ones', 'numpy.eye', 'numpy.identity', 'numpy.arange') and n.args:
+                sinks.append((n.args[0], n))        # a shape / count
+            if isinstance(n, ast.Subscript):
+                sl = n.slice
+                for e in (sl.elts if isinstance(sl, ast.Tuple) else [sl]):
+                    if isinstance(e, ast.Slice):
+                        sinks += [(b, n) for b in (e.lower, e.upper, e.step) if b is not None]
+                # a list of slices used as the index
+                if isinstance(sl, ast.Name) and sl.id in defs and all(
+                        isinstance(d_, (ast.List, ast.ListComp)) and any(isinstance(c_, ast.Call) and isinstance(c_.func, ast.Name) and c_.func.id == 'slice'
+                                                                         for c_ in ast.walk(d_)) for d_ in defs[sl.id]):
+                    r.bad(Finding('C13.int-index', _f(fi), 'list-index:' + norm(n)[:60], '%s indexes with the list `%s` of slices (`%s`): NumPy treats a list as '
+                                                                                        'fancy indexing and raises - a tuple is needed' % (fi.qualname, sl.id, norm(n)[:50]),
+                                  fi.file, n.lineno))
+        seen_sites = set()
+        for e, site in sinks:
+            n_sinks += 1
+            hit = div_in(e, set())
+            if hit is not None and (id(site), norm(hit)) not in seen_sites:
+                seen_sites.add((id(site), norm(hit)))
+                r.bad(Finding('C13.int-index', _f(fi), 'div:' + norm(site)[:60], '%s: the true division `%s` reaches the index expression `%s`: a float index raises '
+                                                                                 '(floor division `//` is meant)' % (fi.qualname, norm(hit)[:50], norm(site)[:60]),
+                              fi.file, getattr(site, 'lineno', fi.lineno)))
+    r.instances += n_sinks
+    r.holding += n_sinks - len(r.findings)
+    r.floor = 500
+    return r
+
+
 def rule_broadcast_axes(ctx):
     r = RuleResult('C02.broadcast-axes', 'the UTPM-aware broadcasting helper _broadcast_arrays keeps the coefficient and direction axes apart from the element '
                                          'axes: interpreted over axis labels for operand ranks 2..5, both operands enter numpy broadcasting with (D, P) as '
